@@ -327,6 +327,7 @@ def _why(o):
 
 def replay(pid, path, repo, root):
     """Re-run the obligation named in a replay file against the current tree."""
+    path = os.path.abspath(path)
     with open(path) as f:
         rep = json.load(f)
     name = rep["obligation"]
